@@ -112,6 +112,37 @@ impl Metrics {
     }
 }
 
+#[cfg(feature = "verif_hooks")]
+impl Metrics {
+    pub(crate) fn verif_collect(&self) -> (String, Bytes) {
+        self.collect()
+    }
+
+    pub(crate) fn verif_client_sessions(&self, protocol: Protocol) -> i64 {
+        self.client_sessions
+            .with_label_values(&[protocol.as_str()])
+            .get()
+    }
+
+    pub(crate) fn verif_traffic(&self, protocol: Protocol) -> (u64, u64) {
+        (
+            self.inbound_traffic
+                .with_label_values(&[protocol.as_str()])
+                .get(),
+            self.outbound_traffic
+                .with_label_values(&[protocol.as_str()])
+                .get(),
+        )
+    }
+
+    pub(crate) fn verif_outbound_sockets(&self) -> (i64, i64) {
+        (
+            self.outbound_tcp_sockets.get(),
+            self.outbound_udp_sockets.get(),
+        )
+    }
+}
+
 impl ClientSessionsCounter {
     fn new(metrics: Arc<Metrics>, protocol: Protocol) -> Self {
         metrics
